@@ -175,6 +175,22 @@ def main():
                             stats['winners'].setdefault(racy_key, set()).add(r[1] - 1000000)
                     elif r[1] != -1:
                         viol(cfg, 'no returning iteration but a value was returned', got=r[1])
+                elif body == 'rbreak':
+                    raised = array.array('i', [0] * SIZE)
+                    mod = cfg['mod']
+                    K1 = [i for i in rg if i % mod == 1]
+                    try:
+                        r = f(st, sp, stp, nt, chunk, dseed, Tracked, mod, raised, OFF)
+                        outcome = 'done'
+                        executed_raisers = [i for i in rg if raised[i + OFF]]
+                        if executed_raisers:
+                            viol(cfg, 'an iteration raised but the exception did not win over break', executed_raisers=executed_raisers)
+                    except Tracked as e:
+                        outcome = 'exc'
+                        w = e.args[0] if e.args else None
+                        if w not in K1 or not raised[w + OFF]:
+                            viol(cfg, 'exception does not stem from a raising iteration that executed', got=w, candidates=K1)
+                        e = None
                 elif body == 'mix':
                     raised = array.array('i', [0] * SIZE)
                     mod = cfg['mod']
